@@ -20,6 +20,8 @@ class ParFlow:
         for k in range(nitems):
             kind = r.choice(["task", "task", "tasks", "slice", "slice", "map"])
             it = dict(kind=kind, k=k, ctx=r.random() < 0.5, err=r.random() < 0.6)
+            if kind == "task":
+                it["instr"] = self.instr and r.random() < 0.6
             if kind == "tasks":
                 it["n"] = r.randint(1, 3)
             if kind in ("slice", "map"):
@@ -140,7 +142,10 @@ class ParFlow:
             chk = "x.CheckCtx(\"%s%d\", ctx); " % (it["kind"][0], k) if it["ctx"] else ""
             if it["kind"] == "task":
                 f = fn(cp, it["err"], "x.Call(\"t%d\", 0)" % k)
-                opts.append("cff.Task(%s)" % arg(f))
+                if it.get("instr"):
+                    opts.append("cff.Task(%s, cff.Instrument(%s))" % (arg(f), arg("\"t%d\"" % k)))
+                else:
+                    opts.append("cff.Task(%s)" % arg(f))
             elif it["kind"] == "tasks":
                 fs = [arg(fn(cp, it["err"], "x.Call(\"t%d_%d\", 0)" % (k, j))) for j in range(it["n"])]
                 opts.append("cff.Tasks(\n\t\t\t%s,\n\t\t)" % ",\n\t\t\t".join(fs))
